@@ -15,6 +15,7 @@ CONSTANTS
   MaxGen = 2
   MaxWrites = 2
   MaxCloses = 1
+  MaxChanges = 0
   Atomic = TRUE
   Record = FALSE
   DumpAt <- NoDump
